@@ -48,6 +48,11 @@ def run_case(case, ctx):
 		rpaths = H.write_genomes(os.path.join(d, 'rdir'), rgen, rnames)
 		qs_path = os.path.join(d, 'q.gs')
 		rs_path = os.path.join(d, 'r.gs')
+		if case.get('same_basename'):
+			# the two signature files carry the same file name in different directories
+			os.makedirs(os.path.join(d, 'queries')); os.makedirs(os.path.join(d, 'refs'))
+			qs_path = os.path.join(d, 'queries', 'signatures.gs')
+			rs_path = os.path.join(d, 'refs', 'signatures.gs')
 		qsig_Q = H.write_sigfile(qs_path, qgen, Q[0], Q[1], [f'qid{i}' for i in range(len(qgen))])
 		rsig_R = H.write_sigfile(rs_path, rgen, R[0], R[1], [f'rid{i}' for i in range(len(rgen))])
 		out = os.path.join(d, 'out.csv')
@@ -186,7 +191,7 @@ def run_case(case, ctx):
 					got = [[int(v) for v in s[i]] for i in range(len(s))]
 				if got != expect[1]:
 					raise Violation('create_wrong_sigs', f'{desc}: created signatures differ from R-KMER under the database parameters', case)
-		classes = ['cmd=' + cmd, 'mismatch' if mismatch else 'consistent', 'explicit' if E else 'implicit'] + (['after_run_with_other_parameters'] if case.get('warmup') else []) + [
+		classes = ['cmd=' + cmd, 'mismatch' if mismatch else 'consistent', 'explicit' if E else 'implicit'] + (['after_run_with_other_parameters'] if case.get('warmup') else []) + (['signature_files_share_a_name'] if case.get('same_basename') else []) + [
 		           'out_exists' if case['out_exists'] else 'out_absent']
 		joins = cmd not in ('dist_q_r', 'create_dbparams', 'dist_k_only', 'dist_p_only')
 		return {'nontrivial': bool(mismatch and joins), 'classes': classes, 'expects_rejection': bool(mismatch)}
@@ -232,7 +237,7 @@ def gen_case(draw, tier):
 	return {'kind': 'cmd', 'world': w, 'specQ': specQ, 'specR': specR, 'specE': specE,
 	        'cmd': draw(st.sampled_from(COMMANDS)), 'out_exists': draw(st.booleans()),
 	        'lower_prefix': draw(st.sampled_from([False, False, True])), 'db_via_env': draw(st.sampled_from([False, False, True])),
-	        'warmup': draw(st.sampled_from([False, True, False]))}
+	        'warmup': draw(st.sampled_from([False, True, False])), 'same_basename': draw(st.sampled_from([False, True, False]))}
 
 
 def strategy(tier):
